@@ -7,6 +7,7 @@ import (
 	"io"
 	"math/rand"
 	"strings"
+	"time"
 
 	"github.com/dsnet/compress/brotli"
 	"github.com/dsnet/compress/bzip2"
@@ -84,6 +85,11 @@ func codecs() []codec {
 			New: func(s io.Reader) rdr { z, _ := bzip2.NewReader(s, nil); return bzip2R{z} },
 			Valid: func(rng *rand.Rand, maxPlain int) gen.Stream {
 				p := gen.Plain(rng, maxPlain)
+				if rng.Intn(3) == 0 {
+					// the block ends inside a run: the RLE1 stage still owes bytes
+					// after it has consumed all its input
+					p = append(append([]byte{}, p...), bytes.Repeat([]byte{byte(rng.Intn(256))}, 4+rng.Intn(300))...)
+				}
 				d := ref.BZCompress(p, 1+rng.Intn(9))
 				if rng.Intn(4) == 0 {
 					p2 := gen.Plain(rng, maxPlain/4)
@@ -233,6 +239,12 @@ func schedule(rng *rand.Rand, kind int) []int {
 		return []int{1 << 20}
 	case 3:
 		return []int{7}
+	case 5: // a zero-length Read after every short Read, all the way through
+		var s []int
+		for i := 0; i < 6000; i++ {
+			s = append(s, 1+rng.Intn(60), 0)
+		}
+		return append(s, 4096)
 	default:
 		var s []int
 		for i := 0; i < 20; i++ {
@@ -243,6 +255,20 @@ func schedule(rng *rand.Rand, kind int) []int {
 			}
 		}
 		return append(s, 1+rng.Intn(5000))
+	}
+}
+
+// observeT is observe under a watchdog: a decoder that does not finish within
+// the limit is reported as class "hang" (the goroutine is abandoned).
+func observeT(c codec, data []byte, sk srcKind, sched []int, rng *rand.Rand, limit time.Duration) obs {
+	ch := make(chan obs, 1)
+	seed := rng.Int63()
+	go func() { ch <- observe(c, data, sk, sched, rand.New(rand.NewSource(seed))) }()
+	select {
+	case o := <-ch:
+		return o
+	case <-time.After(limit):
+		return obs{Cls: "hang", Bad: fmt.Sprintf("Read did not return within %v", limit)}
 	}
 }
 
